@@ -11,6 +11,7 @@ def AbsEq : Option (TableDef × List Row) → Option (TableDef × List Row) → 
 structure Sim (s : Store) (sp : SpecSt) : Prop where
   abs : ∀ n, AbsEq (s.abs n) (sp.tables.get n)
   noViews : sp.views = []
+  allTables : ∀ e ∈ s.cat.entries, e.kind = .table
 
 theorem abs_eq (s : Store) (n : String) :
     s.abs n = match s.tableId? n with
@@ -76,7 +77,7 @@ theorem get_filter (sp : Spec) (n n' : String) :
 /-- statements that leave catalog and tables alone and every table's bag unchanged keep `Sim` -/
 theorem Sim.of_scan {s s' : Store} {sp : SpecSt} (sim : Sim s sp) (hc : s'.cat = s.cat) (ht : s'.tables = s.tables)
     (hs : ∀ t, (s'.scan t).Perm (s.scan t)) : Sim s' sp := by
-  refine ⟨fun n => ?_, sim.noViews⟩
+  refine ⟨fun n => ?_, sim.noViews, by rw [hc]; exact sim.allTables⟩
   have := sim.abs n
   rw [abs_eq] at this ⊢
   have hid : s'.tableId? n = s.tableId? n := by simp [Store.tableId?, hc]
@@ -101,7 +102,7 @@ theorem Sim.of_table {s s' : Store} {sp : SpecSt} (inv : Inv s) (sim : Sim s sp)
     (h1 : s.tableId? n = some tid) (h2 : lookup tid s.tables = some d) (h3 : sp.tables.get n = some (d, rows))
     (hs : (s'.scan tid).Perm newRows) (ho : ∀ t, t ≠ tid → s'.scan t = s.scan t) :
     Sim s' { sp with tables := sp.tables.set n (d, newRows) } := by
-  refine ⟨fun n' => ?_, sim.noViews⟩
+  refine ⟨fun n' => ?_, sim.noViews, by rw [hc]; exact sim.allTables⟩
   have hid : ∀ m, s'.tableId? m = s.tableId? m := fun m => by simp [Store.tableId?, hc]
   simp only [get_set]
   by_cases hn : n' = n
@@ -153,12 +154,19 @@ theorem find?_filter_none {α} (p q : α → Bool) (l : List α) (h : l.find? p 
   rw [List.find?_eq_none] at h ⊢
   intro x hx; exact h x (List.mem_filter.mp hx).1
 
-/-- **one guarded statement: same outcome as the specification, and `abs` keeps agreeing** -/
-theorem step_sim (s : Store) (inv : Inv s) (sp : SpecSt) (sim : Sim s sp) (op : Op) (g : Guard s op) :
+/-- statements of the view-free fragment (views are catalog-only and do not survive a reopen: the
+name-level refinement is stated without them; `hist_inv` covers them) -/
+def Op.noView : Op → Bool
+  | .createView _ | .createIndex _ _ => false
+  | _ => true
+
+/-- **one statement of the view-free fragment: same outcome as the specification, and `abs` keeps
+agreeing** -/
+theorem step_sim (s : Store) (inv : Inv s) (sp : SpecSt) (sim : Sim s sp) (op : Op) (hv : op.noView = true) :
     ∃ s', stepUp s op = (.up s', (sp.step op).2) ∧ Sim s' (sp.step op).1 := by
   cases op with
-  | createView n => exact absurd g id
-  | createIndex n t => exact absurd g id
+  | createView n => simp [Op.noView] at hv
+  | createIndex n t => simp [Op.noView] at hv
   | compact plan =>
     obtain ⟨_, c1, t1, p1⟩ := compact_scan plan s inv.wf
     exact ⟨_, rfl, sim.of_scan c1 t1 p1⟩
@@ -166,8 +174,11 @@ theorem step_sim (s : Store) (inv : Inv s) (sp : SpecSt) (sim : Sim s sp) (op : 
     obtain ⟨_, c1, t1, p1⟩ := vacuum_scan s inv.wf
     exact ⟨_, rfl, sim.of_scan c1 t1 (fun t => List.Perm.of_eq (p1 t))⟩
   | reopen =>
-    obtain ⟨s', r1, _, _, c1, t1, p1⟩ := reopen_inv s inv
-    exact ⟨s', by simp [stepUp, r1, SpecSt.step], sim.of_scan c1 t1 (fun t => List.Perm.of_eq (p1 t))⟩
+    obtain ⟨s', r1, _, habs, c1, _, _, _⟩ := reopen_inv s inv
+    refine ⟨s', by simp [stepUp, r1, SpecSt.step], ⟨fun n => by rw [habs n]; exact sim.abs n, sim.noViews, ?_⟩⟩
+    intro e he
+    rw [c1] at he
+    exact sim.allTables e (List.mem_filter.mp he).1
   | insert n parts =>
     have ha := sim.abs n
     rw [abs_eq] at ha
@@ -177,8 +188,8 @@ theorem step_sim (s : Store) (inv : Inv s) (sp : SpecSt) (sim : Sim s sp) (op : 
       have hg := absEq_none_left ha
       exact ⟨s, by simp [stepUp, Store.insert, h1, SpecSt.step, hg], by simpa [SpecSt.step, hg] using sim⟩
     | some tid =>
-      obtain ⟨e0, he0, hid, _, _⟩ := tableId?_mem s n tid h1
-      have hsome := inv.catTab e0 he0
+      obtain ⟨e0, he0, hid, _, hk0⟩ := tableId?_mem s n tid h1
+      have hsome := inv.catTab e0 he0 hk0
       rw [hid] at hsome
       cases h2 : lookup tid s.tables with
       | none => simp [h2] at hsome
@@ -203,8 +214,8 @@ theorem step_sim (s : Store) (inv : Inv s) (sp : SpecSt) (sim : Sim s sp) (op : 
       have hg := absEq_none_left ha
       exact ⟨s, by simp [stepUp, Store.delete, h1, SpecSt.step, hg], by simpa [SpecSt.step, hg] using sim⟩
     | some tid =>
-      obtain ⟨e0, he0, hid, _, _⟩ := tableId?_mem s n tid h1
-      have hsome := inv.catTab e0 he0
+      obtain ⟨e0, he0, hid, _, hk0⟩ := tableId?_mem s n tid h1
+      have hsome := inv.catTab e0 he0 hk0
       rw [hid] at hsome
       cases h2 : lookup tid s.tables with
       | none => simp [h2] at hsome
@@ -231,9 +242,9 @@ theorem step_sim (s : Store) (inv : Inv s) (sp : SpecSt) (sim : Sim s sp) (op : 
       | none => simp [hfe] at hf
       | some e =>
         have he : e ∈ s.cat.entries := List.mem_of_find?_eq_some hfe
-        have hk := (inv.catIds e he).2
+        have hk := sim.allTables e he
         have h1 : s.tableId? d.name = some e.id := by simp [Store.tableId?, hfe, hk]
-        have hsome := inv.catTab e he
+        have hsome := inv.catTab e he hk
         cases h2 : lookup e.id s.tables with
         | none => simp [h2] at hsome
         | some d0 =>
@@ -253,7 +264,11 @@ theorem step_sim (s : Store) (inv : Inv s) (sp : SpecSt) (sim : Sim s sp) (op : 
       refine ⟨(s.createTable d).1, by simp only [stepUp, SpecSt.step, hg, sim.noViews]; simp [f11], ?_⟩
       simp only [SpecSt.step, hg, sim.noViews]
       simp only [Option.isSome_none, List.contains_nil, Bool.or_self, Bool.false_eq_true, if_false]
-      refine ⟨fun n' => ?_, rfl⟩
+      refine ⟨fun n' => ?_, rfl, fun e he => by
+        rw [f1, a3] at he
+        rcases List.mem_append.mp he with he | he
+        · exact sim.allTables e he
+        · simp at he; subst he; rfl⟩
       rw [get_set, abs_eq]
       have hfind : ∀ m, (s.createTable d).1.cat.find? m =
           if m = d.name then some ⟨s.cat.nextId, d.name, .table⟩ else s.cat.find? m := by
@@ -296,8 +311,8 @@ theorem step_sim (s : Store) (inv : Inv s) (sp : SpecSt) (sim : Sim s sp) (op : 
         cases h4 : s.tableId? n' with
         | none => simpa [h4] using hb
         | some t =>
-          obtain ⟨e1, he1, hid1, _, _⟩ := tableId?_mem s n' t h4
-          have hs1 := inv.catTab e1 he1
+          obtain ⟨e1, he1, hid1, _, hk1⟩ := tableId?_mem s n' t h4
+          have hs1 := inv.catTab e1 he1 hk1
           rw [hid1] at hs1
           simp only [h4] at hb ⊢
           rw [f2, lookup_append_isSome _ _ _ hs1]
@@ -316,11 +331,11 @@ theorem step_sim (s : Store) (inv : Inv s) (sp : SpecSt) (sim : Sim s sp) (op : 
         by simpa [SpecSt.step, hg, sim.noViews] using sim⟩
     | some e0 =>
       have he0 : e0 ∈ s.cat.entries := List.mem_of_find?_eq_some hf
-      have hk := (inv.catIds e0 he0).2
+      have hk := sim.allTables e0 he0
       have hname : e0.name = n := by have := List.find?_some hf; simpa using this
       obtain ⟨f1, f2, f3, f4, _, _, _, f8, _, _, f11⟩ := drop_fields s n e0 hf hk
       have h1 : s.tableId? n = some e0.id := by simp [Store.tableId?, hf, hk]
-      have hsome := inv.catTab e0 he0
+      have hsome := inv.catTab e0 he0 hk
       cases h2 : lookup e0.id s.tables with
       | none => simp [h2] at hsome
       | some d0 =>
@@ -329,7 +344,9 @@ theorem step_sim (s : Store) (inv : Inv s) (sp : SpecSt) (sim : Sim s sp) (op : 
         refine ⟨(s.drop n).1, by simp only [stepUp, SpecSt.step, hg, sim.noViews]; simp [f11], ?_⟩
         simp only [SpecSt.step, hg, sim.noViews]
         simp only [List.contains_nil, Bool.false_eq_true, if_false, Option.isSome_some, if_true]
-        refine ⟨fun n' => ?_, rfl⟩
+        refine ⟨fun n' => ?_, rfl, fun e he => by
+          rw [f1] at he
+          exact sim.allTables e (List.mem_filter.mp he).1⟩
         rw [get_filter, abs_eq]
         by_cases hn : n' = n
         · subst hn
@@ -378,7 +395,7 @@ theorem step_sim (s : Store) (inv : Inv s) (sp : SpecSt) (sim : Sim s sp) (op : 
               | none => rw [find?_filter_none _ _ _ hc]
               | some e =>
                 simp only [hc] at h4
-                have := (inv.catIds e (List.mem_of_find?_eq_some hc)).2
+                have := sim.allTables e (List.mem_of_find?_eq_some hc)
                 simp [this] at h4
             rw [this]; simpa [h4] using hb
           | some t =>
@@ -392,7 +409,7 @@ theorem step_sim (s : Store) (inv : Inv s) (sp : SpecSt) (sim : Sim s sp) (op : 
               | none => simp [hc] at h4
               | some e =>
                 simp only [hc] at h4
-                have hke := (inv.catIds e (List.mem_of_find?_eq_some hc)).2
+                have hke := sim.allTables e (List.mem_of_find?_eq_some hc)
                 simp only [hke, BEq.rfl, if_true, Option.some.injEq] at h4
                 rw [find?_filter_some _ (fun x => x.id != e0.id) _ e hc (by simp [h4, hne])]
                 simp [hke, h4]
@@ -425,15 +442,207 @@ theorem step_sim (s : Store) (inv : Inv s) (sp : SpecSt) (sim : Sim s sp) (op : 
               simp only [Store.rsVisible, hdv, Store.dirRows, f8]
             rw [hsc]; exact hb
 
-/-- **history_refines_spec**: along every guarded history — CREATE / DROP TABLE (also of the same
-name again), INSERT (any partition), DELETE, compaction (any plan), vacuum, shutdown+reopen — every
-statement has the specification's outcome (DELETE's count included) and every table name maps to
-the specification's definition and bag of rows. -/
+/-! ### the counters stay aligned along the view-free fragment
+
+`Guard` asks CREATE TABLE for `replay's id counter = live id counter`.  Only CREATE VIEW / CREATE
+INDEX move the live counter alone, so along histories without them the guard holds by itself. -/
+
+/-- the id a replay of the log would hand out next is the id the live catalog hands out next -/
+def Aligned (s : Store) : Prop := (bootFold (replay s.manifest)).cat.nextId = s.cat.nextId
+
+/-- records that are neither transaction marks nor `CreateTable` -/
+def Rec.plain : Rec → Bool
+  | .begin | .end_ | .createTable _ => false
+  | _ => true
+
+theorem Rec.plain_notMark {r : Rec} (h : r.plain = true) : r.isMark = false := by
+  cases r <;> simp_all [Rec.plain, Rec.isMark]
+
+theorem Boot.step_nextId (b : Boot) (r : Rec) (h : r.plain = true) : (b.step r).cat.nextId = b.cat.nextId := by
+  unfold Boot.step
+  split
+  · rfl
+  · cases r with
+    | createTable d => simp [Rec.plain] at h
+    | dropTable tid => simp only; split <;> simp [Catalog.remove]
+    | _ => rfl
+
+theorem foldl_nextId : ∀ (recs : List Rec) (b : Boot), (∀ r ∈ recs, r.plain = true) →
+    (recs.foldl Boot.step b).cat.nextId = b.cat.nextId
+  | [], _, _ => rfl
+  | r :: recs, b, h => by
+    rw [List.foldl_cons, foldl_nextId recs _ (fun x hx => h x (List.mem_cons_of_mem _ hx)),
+      Boot.step_nextId b r (h r List.mem_cons_self)]
+
+/-- `s'` = `s` after at most one committed transaction of plain records, same live id counter -/
+def Ext (s s' : Store) : Prop :=
+  s'.cat.nextId = s.cat.nextId ∧
+    (s'.manifest = s.manifest ∨ ∃ recs, s'.manifest = s.manifest ++ txn recs ∧ ∀ r ∈ recs, r.plain = true)
+
+theorem Ext.aligned {s s' : Store} (e : Ext s s') (hc : Closed s.manifest) (al : Aligned s) : Aligned s' := by
+  unfold Aligned at *
+  obtain ⟨h1, h2 | ⟨recs, h2, h3⟩⟩ := e
+  · rw [h1, h2]; exact al
+  · rw [h1, h2, (sync_commit s.manifest recs hc (fun r hr => Rec.plain_notMark (h3 r hr))).2, foldl_nextId recs _ h3]
+    exact al
+
+theorem isDel_plain {r : Rec} (h : r.isDel = true) : r.plain = true := by
+  cases r <;> simp_all [Rec.isDel, Rec.plain]
+
+theorem compactTable_ext_aux (s : Store) (tid : Nat) (d : TableDef) (sel : List Nat) (selected : List Nat)
+    (rows : List Row)
+    (hsel : sortNat ((s.rowsetsOf tid).filter sel.contains) = selected)
+    (hrows : (if d.sortKey.isEmpty then (selected.map fun rs => (s.rsVisible tid rs).map (·.2)).flatten
+      else mergeAll (keyLe d.sortKey) (selected.map fun rs => (s.rsVisible tid rs).map (·.2))) = rows) :
+    Ext s (s.compactTable tid d sel) := by
+  rw [compactTable_eq s tid d sel selected rows hsel hrows]
+  split
+  · exact ⟨rfl, Or.inl rfl⟩
+  · split
+    · exact ⟨rfl, Or.inr ⟨_, rfl, fun r hr => isDel_plain (compactDels_isDel s tid _ r hr)⟩⟩
+    · refine ⟨rfl, Or.inr ⟨_, rfl, fun r hr => ?_⟩⟩
+      rcases List.mem_cons.mp hr with rfl | hr
+      · rfl
+      · exact isDel_plain (compactDels_isDel s tid _ r hr)
+
+theorem compactTable_ext (s : Store) (tid : Nat) (d : TableDef) (sel : List Nat) : Ext s (s.compactTable tid d sel) :=
+  compactTable_ext_aux s tid d sel _ _ rfl rfl
+
+theorem compact_aligned : ∀ (plan : List (Nat × List Nat)) (s : Store), Inv s → Aligned s → Aligned (s.compact plan)
+  | [], _, _, al => al
+  | (tid, sel) :: plan, s, inv, al => by
+    simp only [Store.compact, List.foldl_cons]
+    cases hl : lookup tid s.tables with
+    | none => exact compact_aligned plan s inv al
+    | some d =>
+      exact compact_aligned plan _ (compactTable_inv s inv tid d sel hl)
+        ((compactTable_ext s tid d sel).aligned inv.sync.closed al)
+
+/-- **one statement of the view-free fragment keeps the counters aligned** -/
+theorem step_aligned (s : Store) (inv : Inv s) (al : Aligned s) (op : Op) (hv : op.noView = true) :
+    ∀ s', (stepUp s op).1 = .up s' → Aligned s' := by
+  intro s' hs
+  cases op with
+  | createView n => simp [Op.noView] at hv
+  | createIndex n t => simp [Op.noView] at hv
+  | create d =>
+    cases ha : s.cat.add d.name .table with
+    | none =>
+      have : s' = s := by simpa [stepUp, Store.createTable, ha] using hs.symm
+      rw [this]; exact al
+    | some r =>
+      obtain ⟨id, c'⟩ := r
+      have inv' := createTable_inv s inv d id c' ha al
+      obtain ⟨_, _, a3⟩ := add_spec _ _ _ _ _ ha
+      obtain ⟨f1, _, _, _, _, _, _, _, _, f10, _⟩ := createTable_fields s d id c' ha
+      have : s' = (s.createTable d).1 := by simpa [stepUp] using hs.symm
+      rw [this]
+      have hok := inv'.sync.ok
+      unfold Aligned
+      rw [f10, (sync_commit s.manifest [Rec.createTable d] inv.sync.closed (by intro r hr; simp at hr; subst hr; rfl)).2] at hok ⊢
+      rw [f1, a3]
+      simp only [List.foldl_cons, List.foldl_nil] at hok ⊢
+      have hb := inv.sync.ok
+      unfold Boot.step at hok ⊢
+      simp only [hb, Option.isSome_none, Bool.false_eq_true, if_false] at hok ⊢
+      cases hadd : (bootFold (replay s.manifest)).cat.add d.name .table with
+      | none => simp [hadd] at hok
+      | some r2 =>
+        obtain ⟨id2, c2⟩ := r2
+        obtain ⟨_, _, b3⟩ := add_spec _ _ _ _ _ hadd
+        simp only [b3]
+        show _ + 1 = _ + 1
+        rw [al]
+  | drop n =>
+    cases hf : s.cat.find? n with
+    | none =>
+      have : s' = s := by simpa [stepUp, Store.drop, hf] using hs.symm
+      rw [this]; exact al
+    | some e0 =>
+      have : s' = (s.drop n).1 := by simpa [stepUp] using hs.symm
+      rw [this]
+      cases hk : e0.kind with
+      | table =>
+        obtain ⟨f1, _, _, _, _, _, _, _, _, f10, _⟩ := drop_fields s n e0 hf hk
+        refine Ext.aligned ⟨by rw [f1]; rfl, Or.inr ⟨_, f10, fun r hr => ?_⟩⟩ inv.sync.closed al
+        rcases List.mem_cons.mp hr with rfl | hr
+        · rfl
+        · simp only [dropRecs, List.mem_flatMap, List.mem_cons, List.mem_map] at hr
+          obtain ⟨rs, _, h | ⟨x, _, hx⟩⟩ := hr
+          · subst h; rfl
+          · subst hx; rfl
+      | view =>
+        exact Ext.aligned ⟨by simp [Store.drop, hf, hk, Catalog.remove], Or.inl (by simp [Store.drop, hf, hk])⟩ inv.sync.closed al
+  | insert n parts =>
+    cases h1 : s.tableId? n with
+    | none =>
+      have : s' = s := by simpa [stepUp, Store.insert, h1] using hs.symm
+      rw [this]; exact al
+    | some tid =>
+      cases h2 : lookup tid s.tables with
+      | none =>
+        have : s' = s := by simpa [stepUp, Store.insert, h1, h2] using hs.symm
+        rw [this]; exact al
+      | some d =>
+        cases hok : rowsOk d parts.flatten with
+        | false =>
+          have : s' = s := by simpa [stepUp, insert_rejected s n parts tid d h1 h2 hok] using hs.symm
+          rw [this]; exact al
+        | true =>
+          have : s' = (s.insert n parts).1 := by simpa [stepUp] using hs.symm
+          rw [this]
+          obtain ⟨f1, _, _, _, _, _, _, f8⟩ := insert_fields s n parts tid d h1 h2 hok
+          refine Ext.aligned ⟨by rw [f1], Or.inr ⟨_, f8, fun r hr => ?_⟩⟩ inv.sync.closed al
+          obtain ⟨x, _, rfl⟩ := List.mem_map.mp hr; rfl
+  | delete n p =>
+    cases h1 : s.tableId? n with
+    | none =>
+      have : s' = s := by simpa [stepUp, Store.delete, h1] using hs.symm
+      rw [this]; exact al
+    | some tid =>
+      have : s' = (s.delete n p).1 := by simpa [stepUp] using hs.symm
+      rw [this]
+      obtain ⟨f1, _⟩ := delete_fields s n p tid h1
+      obtain ⟨_, _, f3⟩ := delete_fields2 s n p tid h1
+      refine Ext.aligned ⟨by rw [f1], Or.inr ⟨_, f3, fun r hr => ?_⟩⟩ inv.sync.closed al
+      obtain ⟨x, _, rfl⟩ := List.mem_map.mp hr; rfl
+  | compact plan =>
+    have : s' = s.compact plan := by simpa [stepUp] using hs.symm
+    rw [this]; exact compact_aligned plan s inv al
+  | vacuum =>
+    have : s' = s.vacuum := by simpa [stepUp] using hs.symm
+    rw [this]; exact al
+  | reopen =>
+    obtain ⟨s1, r1, _, _, _, _, _, hal⟩ := reopen_inv s inv
+    have : s' = s1 := by simpa [stepUp, r1] using hs.symm
+    rw [this]; exact hal
+
+/-- **along the view-free fragment the guard is free**: from an aligned state satisfying the
+invariant, every history without CREATE VIEW / CREATE INDEX is a `GoodHist` -/
+theorem goodHist_of_noView : ∀ (h : List Op) (s : Store), Inv s → Aligned s → h.all Op.noView = true → GoodHist s h
+  | [], _, _, _, _ => trivial
+  | op :: ops, s, inv, al, hv => by
+    simp only [List.all_cons, Bool.and_eq_true] at hv
+    have g : Guard s op := by
+      cases op <;> first | exact al | trivial
+    refine ⟨g, ?_⟩
+    obtain ⟨s1, e1, inv1⟩ := step_inv s inv op g
+    rw [e1]
+    exact goodHist_of_noView ops s1 inv1 (step_aligned s inv al op hv.1 s1 e1) hv.2
+
+theorem aligned_init : Aligned Store.init := by unfold Aligned; decide
+
+/-- **history_refines_spec**: along every guarded history of the view-free fragment — CREATE / DROP
+TABLE (also of the same name again), INSERT (any partition), DELETE, compaction (any plan), vacuum,
+shutdown+reopen — every statement has the specification's outcome (DELETE's count included) and
+every table name maps to the specification's definition and bag of rows. -/
 theorem hist_sim : ∀ (h : List Op) (s : Store) (sp : SpecSt), Inv s → Sim s sp → GoodHist s h →
+    h.all Op.noView = true →
     ∃ s', run (.up s) h = .up s' ∧ Inv s' ∧ Sim s' (sp.run h)
-  | [], s, _, inv, sim, _ => ⟨s, rfl, inv, sim⟩
-  | op :: ops, s, sp, inv, sim, g => by
-    obtain ⟨s1, e1, sim1⟩ := step_sim s inv sp sim op g.1
+  | [], s, _, inv, sim, _, _ => ⟨s, rfl, inv, sim⟩
+  | op :: ops, s, sp, inv, sim, g, hv => by
+    simp only [List.all_cons, Bool.and_eq_true] at hv
+    obtain ⟨s1, e1, sim1⟩ := step_sim s inv sp sim op hv.1
     obtain ⟨s1', e1', inv1⟩ := step_inv s inv op g.1
     have hs : s1' = s1 := by
       have := congrArg Prod.fst e1
@@ -442,9 +651,16 @@ theorem hist_sim : ∀ (h : List Op) (s : Store) (sp : SpecSt), Inv s → Sim s 
     subst hs
     have g2 := g.2
     rw [e1'] at g2
-    obtain ⟨s2, e2, inv2, sim2⟩ := hist_sim ops s1' (sp.step op).1 inv1 sim1 g2
+    obtain ⟨s2, e2, inv2, sim2⟩ := hist_sim ops s1' (sp.step op).1 inv1 sim1 g2 hv.2
     exact ⟨s2, by simp only [run, step, e1']; exact e2, inv2, sim2⟩
 
-theorem sim_init : Sim Store.init {} := ⟨fun n => by simp [Store.abs, Store.tableId?, Catalog.find?, Store.init, Spec.get, lookup, AbsEq], rfl⟩
+/-- `hist_sim` with the guard discharged: in the view-free fragment alignment is kept, not assumed -/
+theorem hist_sim_noView (h : List Op) (s : Store) (sp : SpecSt) (inv : Inv s) (al : Aligned s) (sim : Sim s sp)
+    (hv : h.all Op.noView = true) :
+    ∃ s', run (.up s) h = .up s' ∧ Inv s' ∧ Sim s' (sp.run h) :=
+  hist_sim h s sp inv sim (goodHist_of_noView h s inv al hv) hv
+
+theorem sim_init : Sim Store.init {} := ⟨fun n => by simp [Store.abs, Store.tableId?, Catalog.find?, Store.init, Spec.get, lookup, AbsEq], rfl,
+  fun e he => by simp [Store.init] at he⟩
 
 end RlModel
